@@ -495,6 +495,40 @@ func useSiteStage(r *vf.Rec) {
 			break
 		}
 	}
+	// ReadPacket itself must reject a remaining length that continues beyond
+	// four bytes or ends on a continuation byte, whatever follows
+	for _, f := range [][]byte{
+		{0xc0, 0x80, 0x80, 0x80, 0x80, 0x00},
+		{0xe0, 0x81, 0x80, 0x80, 0x80, 0x00, 0x00},
+		{0xc0, 0xff, 0xff, 0xff, 0xff, 0x7f},
+		{0x30, 0x80, 0x80, 0x80, 0x80, 0x01, 0x00, 0x01, 0x61},
+		{0xd0, 0xff, 0xff, 0xff, 0xff, 0x00},
+		{0x20, 0x80, 0x80, 0x80, 0x80, 0x80, 0x00},
+		{0xc0, 0x80}, {0xc0, 0x80, 0x80}, {0xc0, 0xff, 0xff, 0xff},
+	} {
+		q, err, pan := read(f)
+		r.Case(vf.FP(f), true, "public-api/overlong-remaining-length", func() interface{} { return hx(f) })
+		if pan != nil || err == nil || q != nil {
+			r.Fail("vbi", caseC15{Note: "overlong remaining length " + hx(f)}, "public-api:overlong-remaining-length", "ReadPacket on %s (a remaining length that continues beyond four bytes or ends on a continuation byte) returned %v, %v (panic %v); it must be rejected", hx(f), q, err, pan)
+			break
+		}
+	}
+	// the will property length of CONNECT around its size boundaries
+	for _, target := range []int{127, 128, 129, 16383, 16384, 16385} {
+		cm := model.New(model.CONNECT)
+		cm.ClientID = "c"
+		cm.Will = &model.Will{Topic: "w", ContentType: string(bytes.Repeat([]byte{'t'}, target-3))}
+		cm.Normalize()
+		want := ref.Canonical(&cm)
+		got, _, err, pan := write(api.BuildDefault(&cm))
+		r.Case(vf.FPs("willproplen", fmt.Sprint(target)), true, "public-api/will-property-length", func() interface{} {
+			return map[string]interface{}{"will_property_length": target}
+		})
+		if pan != nil || err != nil || !bytes.Equal(got, want) {
+			r.Fail("vbi", caseC15{Note: fmt.Sprintf("will property length %d", target)}, "public-api:will-proplen", "CONNECT whose will properties take %d bytes: WriteTo gives %s, reference %s (%v %v)", target, hx(got[:min(len(got), 24)]), hx(want[:24]), err, pan)
+			break
+		}
+	}
 	for _, rl := range []int{maxV - 5, maxV - 1} {
 		pm := model.New(model.PUBLISH)
 		pm.TopicName = "t"
